@@ -129,6 +129,7 @@ func checkC18(c *Ctx, r *Report) {
 	} else {
 		r.add("C18.a", "guardedby", "packages-facade:only-glob-matched-files-are-sources", "the glob-matched files are kept as a set and each is a source once", nil, nil, "the glob-matched set (a map keyed by absolute path) was not found in initWithGlobs")
 	}
+	checkStatusCodeClasses(c, r, "C18.d")
 	const lv = "(core/validators.AnnotationLinkValidator).Validate"
 	if fi := need(c, r, "C18.a", lv); fi != nil {
 		viol := ""
@@ -868,4 +869,82 @@ func checkDiagCodesLive(c *Ctx, r *Report) {
 	}
 	o := r.add("C18.e", "readset", "diagnostic-codes⊆produced", fmt.Sprintf("each of the %d diagnostic codes is referenced by gleece (except the %d reviewed never-used ones)", len(consts), len(unusedOK)), []string{pkgDiag + ".DiagnosticCode"}, sites, viol)
 	o.NonTrivial = true
+}
+
+// checkStatusCodeClasses: a status-code annotation value fails in one of two documented ways -
+// "not a status number at all" (error) and "a number, but not a known code" (warning). Which of
+// the two a value gets is decided by the numeric parse; the reducer converts the same text with
+// definitions.ConvertToHttpStatus. The validator's numeric test and the reducer's are the same
+// parse (function, base, width), so a value is "non-numeric" for the one exactly when it is for
+// the other, and the known-code test is given the parsed number.
+func checkStatusCodeClasses(c *Ctx, r *Report, clause string) {
+	w := c.W
+	const val = "(*core/validators.CommonValidator).validateStatusCodeBearingAttribute"
+	const conv = "definitions.ConvertToHttpStatus"
+	vfi, cfi := need(c, r, clause, val), need(c, r, clause, conv)
+	if vfi == nil || cfi == nil {
+		return
+	}
+	var parsesOf func(fn *ssa.Function, depth int, sites *[]string) map[string]bool
+	parsesOf = func(fn *ssa.Function, depth int, sites *[]string) map[string]bool {
+		out := map[string]bool{}
+		allInstrs(fn, true, func(_ *ssa.Function, _ *ssa.BasicBlock, _ int, ins ssa.Instruction) {
+			cl, ok := ins.(ssa.CallInstruction)
+			if !ok {
+				return
+			}
+			nm := calleeName(cl)
+			if strings.HasPrefix(nm, "strconv.") {
+				sig := nm + "("
+				for i, a := range cl.Common().Args {
+					if i == 0 {
+						continue
+					}
+					if k, ok := stripTrivial(a).(*ssa.Const); ok && k.Value != nil {
+						sig += constString(k.Value) + ","
+					} else {
+						sig += "?,"
+					}
+				}
+				out[sig+")"] = true
+				*sites = append(*sites, w.pos(cl.Pos()))
+				return
+			}
+			if cf := cl.Common().StaticCallee(); cf != nil && depth < 2 && strings.HasPrefix(nm, "definitions.") && cf.Blocks != nil && !w.isNewFn(cf) {
+				for k := range parsesOf(cf, depth+1, sites) {
+					out[k] = true
+				}
+			}
+		})
+		return out
+	}
+	var sites []string
+	vp, cp := parsesOf(vfi.SSA, 0, &sites), parsesOf(cfi.SSA, 0, &sites)
+	viol := ""
+	if len(cp) == 0 {
+		viol = conv + " no longer parses its argument with a strconv function"
+	} else if fmt.Sprint(keys(vp)) != fmt.Sprint(keys(cp)) {
+		viol = fmt.Sprintf("%s: the validator decides \"is it a number\" with %v, the conversion used by the reducers with %v: a value the two parse differently (a sign, a value beyond 32 bits) is reported under the wrong rule - as a non-standard code (warning) instead of a non-numeric one (error), or the other way round", w.pos(vfi.Decl.Pos()), keys(vp), keys(cp))
+	}
+	r.add(clause, "sibling", "status-code:numeric-test==conversion", "the validator's numeric test of a status code is the parse the reducers' conversion uses", []string{val, conv}, sites, viol)
+
+	// the known-code test is asked about the parsed number
+	viol = ""
+	var s2 []string
+	known := callsIn(vfi.SSA, true, func(n string) bool { return n == "definitions.IsValidHttpStatusCode" || n == conv })
+	if len(known) == 0 {
+		viol = val + " no longer asks definitions.IsValidHttpStatusCode (or the conversion) whether the code is a known one"
+	}
+	for _, k := range known {
+		s2 = append(s2, w.pos(k.Pos()))
+		if calleeName(k) != "definitions.IsValidHttpStatusCode" {
+			continue
+		}
+		a := newAtoms()
+		backSlice(k.Common().Args[0], a, map[ssa.Value]bool{}, 0)
+		if !a.Calls["strconv.ParseUint"] {
+			viol = fmt.Sprintf("%s: the number tested for being a known code is not the result of the numeric parse (%s)", w.pos(k.Pos()), sliceOf(k.Common().Args[0]))
+		}
+	}
+	r.add(clause, "fieldflow", val+":known-code(parsed)", "the known-code test is given the number the numeric parse produced", []string{val}, s2, viol)
 }
